@@ -3,6 +3,16 @@
 // Contracts for package constant (comment-only; read by /verif/bin/govc, see /verif/DESIGN.md §2.3).
 package constant
 
+//@ // ---- C14 (flag level): the constant trigger is built from the flags as the user gave them
+//@ func Rate$1
+//@   props C14
+//@   requires params != nil && GJclaim == 0 && G12claim == 0
+//@   ghost after call (*FlagSet).GetFloat64 : GFflt[arg1] = ret0
+//@   ghost after call (*FlagSet).GetString : GFstr[arg1] = ret0
+//@   assert before call CalculateConstantRate : [flags-as-given] arg0 == GFflt["jitter"] && arg1 == GFstr["rate"] && arg2 == GFstr["distribution"]
+//@   ensures [runnable] result.1 == nil ==> result.0 != nil && result.0.Trigger != nil && result.0.DryRun != nil
+//@   ensures [rejected] result.1 != nil ==> result.0 == nil
+//@
 //@ func CalculateConstantRate$1
 //@   props C14
 //@   modifies nothing
